@@ -94,8 +94,9 @@ func (fr *Frame) execCall(cc *ssa.CallCommon, st *State, site ssa.Instruction, d
 	}
 	// a function stored in a struct field with a declared type contract (fieldfunc)
 	if c := fr.fieldFuncContract(cc.Value); c != nil {
-		names := contractParamNames(c, nil, cc.Signature(), false)
-		return fr.applyContract(c, names, sigParamTypes(cc.Signature()), args, resT, st, site, fr.calleeName(cc))
+		names := append(append([]string{}, contractParamNames(c, nil, cc.Signature(), false)...), "self_fn")
+		pts := append(sigParamTypes(cc.Signature()), cc.Value.Type())
+		return fr.applyContract(c, names, pts, append(append([]Value{}, args...), fv), resT, st, site, fr.calleeName(cc))
 	}
 	// a parameter of function type with a per-function declaration "flag fn.<param>=<TypeContract>"
 	if p, ok := cc.Value.(*ssa.Parameter); ok && fr.contract != nil {
@@ -436,6 +437,37 @@ func (fr *Frame) applyContract(c *Contract, names []string, ptypes []types.Type,
 		}
 		vc.assume(st, v.C[0])
 	}
+	if fr.dry == 0 {
+		hasForall := false
+		for _, e := range c.Ensures {
+			if strings.Contains(e.Text, "forall(") {
+				hasForall = true
+			}
+		}
+		if hasForall {
+			post := st.clone()
+			envCopy := map[string]bound{}
+			for k, v := range env {
+				envCopy[k] = v
+			}
+			vc.univ = append(vc.univ, func(inst []Term) {
+				for _, e := range c.Ensures {
+					if !strings.Contains(e.Text, "forall(") {
+						continue
+					}
+					ex, perr := parseContractExpr(e.Text)
+					if perr != nil {
+						continue
+					}
+					lookup := func(name string, _ *State) (bound, bool) { b, ok := envCopy[name]; return b, ok }
+					ec := &evalCtx{vc: vc, fr: fr, pkg: pkg, lookup: lookup, cur: post, old: old, now: post, qvars: map[string]bound{}, inst: inst}
+					if v, _, err := ec.evalSafe(ex); err == nil && len(v.C) == 1 {
+						vc.assume(post, v.C[0])
+					}
+				}
+			})
+		}
+	}
 	if c.Assumed {
 		vc.assumed["assumed contract: "+shortPkg(c.Pkg)+"."+c.Key] = true
 	}
@@ -620,31 +652,24 @@ func (fr *Frame) execAppend(cc *ssa.CallCommon, args []Value, st *State, site ss
 		} else {
 			srcArr = sSel(m, tl.C[0])
 		}
-		if n, ok := isConstLen(tlen); ok {
-			// explicit element stores
-			dstArrIn := sSel(m, s.C[0])
-			for j := 0; j < n; j++ {
-				dstArrIn = sStore(dstArrIn, iAdd(iAdd(s.C[1], s.C[2]), sInt(int64(j))), sSel(srcArr, iAdd(tl.C[1], sInt(int64(j)))))
-			}
-			// fresh array: copy of old prefix then new elements
+		{
 			fa := vc.fresh("append.data"+c.Suffix, "(Array Int "+c.Sort+")")
 			i := sym(fmt.Sprintf("i!%d", vc.nfresh))
-			vc.assume(st, "(forall (("+i+" Int)) (=> (and (<= 0 "+i+") (< "+i+" "+s.C[2]+")) (= (select "+fa+" "+i+") (select "+sSel(m, s.C[0])+" (+ "+s.C[1]+" "+i+")))))")
-			for j := 0; j < n; j++ {
-				vc.assume(st, sEq(sSel(fa, iAdd(s.C[2], sInt(int64(j)))), sSel(srcArr, iAdd(tl.C[1], sInt(int64(j))))))
-			}
-			nm := sIte(inplace, sStore(m, s.C[0], dstArrIn), sStore(m, a.ref, fa))
-			vc.set(st, ek+c.Suffix, srt, nm)
-		} else {
-			fa := vc.fresh("append.data"+c.Suffix, "(Array Int "+c.Sort+")")
-			i := sym(fmt.Sprintf("i!%d", vc.nfresh))
-			// fa describes the contents of the result's backing array (in place or fresh) relative to result.off
+			// fa describes the contents of the result's backing array (in place or fresh), by absolute index
 			roff := res.C[1]
 			oldArr := sSel(m, s.C[0])
-			vc.assume(st, "(forall (("+i+" Int)) (=> (and (<= 0 "+i+") (< "+i+" "+s.C[2]+")) (= (select "+fa+" (+ "+roff+" "+i+")) (select "+oldArr+" (+ "+s.C[1]+" "+i+")))))")
-			vc.assume(st, "(forall (("+i+" Int)) (=> (and (<= 0 "+i+") (< "+i+" "+tlen+")) (= (select "+fa+" (+ "+roff+" "+s.C[2]+" "+i+")) (select "+srcArr+" (+ "+tl.C[1]+" "+i+")))))")
+			lo1 := roff
+			hi1 := vc.define("append.mid", "Int", iAdd(roff, s.C[2]))
+			hi2 := vc.define("append.end", "Int", iAdd(roff, newLen))
+			vc.assume(st, "(forall (("+i+" Int)) (=> (and (<= "+lo1+" "+i+") (< "+i+" "+hi1+")) (= (select "+fa+" "+i+") (select "+oldArr+" (+ "+s.C[1]+" (- "+i+" "+roff+"))))))")
+			vc.assume(st, "(forall (("+i+" Int)) (=> (and (<= "+hi1+" "+i+") (< "+i+" "+hi2+")) (= (select "+fa+" "+i+") (select "+srcArr+" (+ "+tl.C[1]+" (- "+i+" "+hi1+"))))))")
 			// in place: cells outside the appended window keep their value
-			vc.assume(st, sImp(inplace, "(forall (("+i+" Int)) (=> (or (< "+i+" (+ "+s.C[1]+" "+s.C[2]+")) (>= "+i+" (+ "+s.C[1]+" "+newLen+"))) (= (select "+fa+" "+i+") (select "+oldArr+" "+i+"))))"))
+			vc.assume(st, sImp(inplace, "(forall (("+i+" Int)) (=> (or (< "+i+" "+hi1+") (>= "+i+" "+hi2+")) (= (select "+fa+" "+i+") (select "+oldArr+" "+i+"))))"))
+			if n, ok := isConstLen(tlen); ok {
+				for j := 0; j < n; j++ {
+					vc.assume(st, sEq(sSel(fa, iAdd(hi1, sInt(int64(j)))), sSel(srcArr, iAdd(tl.C[1], sInt(int64(j))))))
+				}
+			}
 			vc.set(st, ek+c.Suffix, srt, sStore(m, res.C[0], fa))
 		}
 		_ = ci
@@ -680,7 +705,7 @@ func (fr *Frame) execCopy(cc *ssa.CallCommon, args []Value, st *State, site ssa.
 		oldArr := sSel(m, dst.C[0])
 		fa := vc.fresh("copy.data"+c.Suffix, "(Array Int "+c.Sort+")")
 		i := sym(fmt.Sprintf("i!%d", vc.nfresh))
-		vc.assume(st, "(forall (("+i+" Int)) (=> (and (<= 0 "+i+") (< "+i+" "+n+")) (= (select "+fa+" (+ "+dst.C[1]+" "+i+")) (select "+srcArr+" (+ "+src.C[1]+" "+i+")))))")
+		vc.assume(st, "(forall (("+i+" Int)) (=> (and (<= "+dst.C[1]+" "+i+") (< "+i+" (+ "+dst.C[1]+" "+n+"))) (= (select "+fa+" "+i+") (select "+srcArr+" (+ "+src.C[1]+" (- "+i+" "+dst.C[1]+"))))))")
 		vc.assume(st, "(forall (("+i+" Int)) (=> (or (< "+i+" "+dst.C[1]+") (>= "+i+" (+ "+dst.C[1]+" "+n+"))) (= (select "+fa+" "+i+") (select "+oldArr+" "+i+"))))")
 		vc.set(st, ek+c.Suffix, srt, sStore(m, dst.C[0], fa))
 	}
